@@ -251,6 +251,9 @@ def run_c05(tier: str) -> int:
             if a != b:
                 rep.violation("C05|process-dependent|%s" % kind(rc), {"value": rc, "here": a, "other_process": b, "hashseed": hs})
                 break
+    # (c') size limit: a coded SEQUENCE_TOO_LONG, also for nested sequences and with the option changed
+    nlim = size_limit_probe(rep)
+    rep.cov["sequence_limit_probes"] = nlim
     # (d) the same partition through dds.keep (signature observed via Store.sync_paths)
     nkeep = keep_probe(rep, uni, obs, 60 if tier == "quick" else 400, seed)
     # (e) code -> spec: random deeper values judged by TLC
@@ -290,6 +293,47 @@ def run_c05(tier: str) -> int:
     rep.assumptions += ["sha256 collision resistance", "1 == 1.0 and 0.0 == -0.0 are equal values (left free)",
                         "nan is one class"]
     return rep.finish()
+
+
+def size_limit_probe(rep: Report) -> int:
+    import dds
+    from dds.fun_args import dds_hash
+    from dds.structures import DDSException
+    default = dds.get_option("hash.max_sequence_size")
+    cases = []
+    big = list(range(default + 1))
+    cases += [("list", big, True), ("tuple", tuple(big), True), ("dict", dict((i, i) for i in big), True),
+              ("nested-in-dict", {"k": [0, big]}, True), ("nested-in-dataclass", DC1(a=1, b=big), True),
+              ("at-limit", list(range(default)), False)]
+    n = 0
+    try:
+        for (label, v, too_long) in cases:
+            n += 1
+            _probe_limit(rep, label, v, too_long, "default")
+        dds.set_option("hash.max_sequence_size", 3)
+        for (label, v, too_long) in [("list4", [1, 2, 3, 4], True), ("list3", [1, 2, 3], False),
+                                     ("dict4", {1: 1, 2: 2, 3: 3, 4: 4}, True), ("nested", [[1, 2, 3, 4]], True),
+                                     ("str-is-not-a-sequence", "abcdefgh", False)]:
+            n += 1
+            _probe_limit(rep, label, v, too_long, "option=3")
+    finally:
+        dds.set_option("hash.max_sequence_size", default)
+    return n
+
+
+def _probe_limit(rep: Report, label: str, v: Any, too_long: bool, opt: str) -> None:
+    from dds.fun_args import dds_hash
+    from dds.structures import DDSException
+    try:
+        dds_hash(v)
+        got = "hashed"
+    except DDSException as e:
+        got = "DDS:%s" % (e.error_code.name if e.error_code is not None else "None")
+    except BaseException as e:
+        got = type(e).__name__
+    exp = "DDS:SEQUENCE_TOO_LONG" if too_long else "hashed"
+    if got != exp:
+        rep.violation("C05|size-limit|%s|%s|expected=%s|got=%s" % (label, opt, exp, got), {"case": label, "option": opt})
 
 
 def _exc_where(r: Dict[str, Any]) -> str:
